@@ -493,6 +493,53 @@ example :
   decide +kernel
 end Examples
 
+/-! ## the swarm after a failed batch (the sampler side of C11)
+
+With the RL scheduler any sampler may be chosen after a swarm batch that failed: the rows the swarm then finds at its cursor are another sampler's, and
+there may be fewer of them than its batch.  `_update_best` is total on such a history (the `zip` stops early), and a particle whose slot lies beyond
+the end of the history keeps its personal best and its loss.  (A vectorised `_update_best` that indexes with a boolean mask of the wrong length raises
+there: wave-12 seeded change, found by `pso_bookkeeping` and the RL line-up of `builtin_sampler_faults`.) -/
+section AfterFailure
+variable {α β : Type} [LinearOrder β]
+
+
+theorem ownSlot_none_of_short (bs : Nat) (s : Swarm α β) (points : List (List α)) (losses : List β) (j : Nat)
+    (h : points.length ≤ s.prevStart + j) : ownSlot bs s points losses j = none := by
+  cases hs : ownSlot bs s points losses j with
+  | none => rfl
+  | some pl =>
+    obtain ⟨p, l⟩ := pl
+    have := (ownSlot_is_history_row bs s points losses j p l hs).2.1
+    have hlt : s.prevStart + j < points.length := by
+      by_contra hge
+      rw [List.getElem?_eq_none (Nat.le_of_not_lt hge)] at this
+      cases this
+    omega
+
+/-- a particle whose slot `prevStart + j` lies beyond the end of the history handed to the swarm keeps its personal-best loss and position -/
+theorem updateBest_beyond_history_unchanged (bs : Nat) (s : Swarm α β) (points : List (List α)) (losses : List β) (j : Nat)
+    (hwf : s.bestPos.length = s.bestLoss.length) (h : points.length ≤ s.prevStart + j) :
+    (updateBest bs s points losses).bestLoss[j]? = s.bestLoss[j]? ∧ (updateBest bs s points losses).bestPos[j]? = s.bestPos[j]? := by
+  have hl := updateBest_bestLoss bs s points losses j
+  rw [ownSlot_none_of_short bs s points losses j h] at hl
+  refine ⟨hl, ?_⟩
+  rcases updateBest_personal_best_from_own_slot bs s points losses j hwf with h1 | ⟨p, l, bl, _, hp, _⟩
+  · exact h1.1
+  · exfalso
+    have hlt : s.prevStart + j < points.length := by
+      by_contra hge
+      rw [List.getElem?_eq_none (Nat.le_of_not_lt hge)] at hp
+      cases hp
+    omega
+
+/-- in particular: a failed batch (the same history handed again, so that NO slot is inside it) changes no personal best -/
+theorem updateBest_after_failed_batch (bs : Nat) (s : Swarm α β) (points : List (List α)) (losses : List β)
+    (hwf : s.bestPos.length = s.bestLoss.length) (h : points.length ≤ s.prevStart) (j : Nat) :
+    (updateBest bs s points losses).bestLoss[j]? = s.bestLoss[j]? ∧ (updateBest bs s points losses).bestPos[j]? = s.bestPos[j]? :=
+  updateBest_beyond_history_unchanged bs s points losses j hwf (by omega)
+
+end AfterFailure
+
 end BlackIt.Pso
 
 
